@@ -24,7 +24,7 @@ import ast
 import itertools
 
 from ..absint import Evaluator, Interp, TOP, fin, boolean, sym, Unsupported
-from ..astutil import text, access_path, func_params, range_bounds, fold, stmts_of, calls_in
+from ..astutil import text, access_path, func_params, range_bounds, fold, stmts_of, calls_in, is_const, const_value
 from ..loader import where, AnalysisError
 from ..terms import Terms
 
@@ -310,6 +310,21 @@ def analyse(ctx, repo, clsname, eps_mode):
         transitions += interp.transitions
         for k, node, msg in client.domain_findings:
             dom_seen[(k, node.lineno, msg)] = node
+        # the feasibility cascade tests the markers p[-1] / q[-1] against 0; the same test on a fixed OBJECTIVE position
+        # (p[1] == 0) is a slip of the index: the verdict then depends on an objective value where feasibility is meant
+        for cmp_ in ast.walk(fn):
+            if isinstance(cmp_, ast.Compare) and len(cmp_.ops) == 1 and isinstance(cmp_.ops[0], (ast.Eq, ast.NotEq)):
+                for a_, b_ in ((cmp_.left, cmp_.comparators[0]), (cmp_.comparators[0], cmp_.left)):
+                    if isinstance(a_, ast.Subscript) and access_path(a_.value) in (client.p, client.q) and not isinstance(a_.slice, ast.Slice) \
+                            and is_const(b_) and const_value(b_) == 0:
+                        try:
+                            ix = fold(a_.slice)
+                        except ValueError:
+                            continue
+                        if isinstance(ix, int) and ix != -1:
+                            msg_ = ("the feasibility test `%s` reads position %d of a cost vector, an objective, where the constraint marker (position -1) is meant: "
+                                    "which solution wins then depends on whether that objective happens to be 0" % (text(cmp_), ix))
+                            dom_seen[("violated", cmp_.lineno, msg_)] = cmp_
         for o in outs:
             o.ref0 = o.ref
             if aggrel is not None and "$" in o.word:
